@@ -1381,10 +1381,8 @@ func buildProxyMetadataResponse(meta *metadata.ClusterMetadata, correlationID in
 	}}
 	topics := make([]protocol.MetadataTopic, 0, len(meta.Topics))
 	for _, topic := range meta.Topics {
-		if topic.ErrorCode != protocol.NONE {
-			topics = append(topics, topic)
-			continue
-		}
+		// Topics carrying an error keep it, but any partitions they list are rewritten too:
+		// the proxy is the only broker the client is told about.
 		partitions := make([]protocol.MetadataPartition, 0, len(topic.Partitions))
 		for _, part := range topic.Partitions {
 			partitions = append(partitions, protocol.MetadataPartition{
